@@ -28,7 +28,8 @@ READNAMES = CALLNAMES + ["ATOM_NIL"]
 class Src:
     """a source program given as text plus the facts about it the relation needs"""
 
-    def __init__(self, text, heads, strings, ints, variables, label=""):
+    def __init__(self, text, heads, strings, ints, variables, label="", debug=False):
+        self.debug = debug            # compile with every debug option on; the output is comments + code
         self.text = text
         self.heads = heads            # [(name, arity)]
         self.strings = strings        # names occurring in the source (unquoted)
@@ -232,7 +233,17 @@ def observe(src):
            "load_ok": False, "newkeys": [], "genflags": [], "callable": [], "audit": [], "label": src.label, "text": src.text[:600]}
     try:
         with contextlib.redirect_stderr(io.StringIO()), contextlib.redirect_stdout(io.StringIO()):
-            out = real.compiler.compile_prolog_from_string(src.text)
+            if src.debug:
+                class Ctx:
+                    debug_filename = True
+                    debug_parser = True
+                    debug_generator = True
+                    current_source_file = "verif.prolog"
+                    outf = io.StringIO()
+                code = real.compiler.compile_prolog_from_string(src.text, Ctx)
+                out = Ctx.outf.getvalue() + code        # what yldpc -d writes
+            else:
+                out = real.compiler.compile_prolog_from_string(src.text)
     except RecursionError:
         rec["outcome"] = "rejected"; rec["why"] = "RecursionError"
         return rec
